@@ -172,7 +172,7 @@ def check_pushforward(ctx, c):
         # connectivity reversal: monotone in |z| (decreasing for "high", increasing for "low")
         order = np.argsort(np.abs(z), kind="stable")
         d = np.diff(t[order])
-        if (c["conn"] == "high" and np.any(d > 1e-12)) or (c["conn"] == "low" and np.any(d < -1e-12)):
+        if (c["conn"] == "high" and not np.all(d <= 1e-12)) or (c["conn"] == "low" and not np.all(d >= -1e-12)):
             ctx.fail({"what": "zinnharvey-connectivity", "kind": kind}, f"not monotone in |z| for conn={c['conn']}")
     elif kind == "force_moments":
         rng = np.random.default_rng(c["pseed"])
